@@ -102,7 +102,7 @@ impl Property for C02 {
             knobs: Knobs { max_nodes, variant, ..Default::default() },
         };
         match tier {
-            Tier::Quick => vec![mk("doc", 80_000, 0, 24), mk("fragment", 40_000, 1, 16), mk("bytes", 40_000, 2, 16)],
+            Tier::Quick => vec![mk("doc", 300_000, 0, 24), mk("fragment", 150_000, 1, 16), mk("bytes", 150_000, 2, 16)],
             Tier::Thorough => vec![
                 mk("doc", 2_000_000, 0, 24),
                 mk("doc-big", 100_000, 0, 80),
